@@ -156,6 +156,29 @@ Theorem C05_ape : forall version seek_bytes wav_bytes audio_bytes compression fo
 Proof. exact ape_header. Qed.
 Print Assumptions C05_ape.
 
+(* the header before 3.98 (APE_HEADER_OLD): every version below 3980 and every compression level; blocks per frame
+   73728 * 4 from 3.95, 73728 from 3.90 and for 3.80-3.89 at level 4000 ("extra high"), 9216 otherwise *)
+Theorem C05_ape_old : forall version compression format_flags channels rate header_bytes terminating_bytes frames ffb,
+  0 <= version < 3980 -> 0 <= compression < 65536 -> 0 <= format_flags < 65536 -> 0 <= channels < 65536 ->
+  0 <= rate < 4294967296 -> 0 <= header_bytes < 4294967296 -> 0 <= terminating_bytes < 4294967296 ->
+  0 <= frames < 4294967296 -> 0 <= ffb < 4294967296 ->
+  forall rest,
+  decode_ape (build_ape_old version compression format_flags channels rate header_bytes terminating_bytes frames ffb ++ rest) =
+  Ok (if negb (rate =? 0) && (frames >? 0)
+      then [version; channels; rate; 0; (frames - 1) * spec_ape_old_blocks_per_frame version compression + ffb; rate]
+      else [version; channels; rate; 0; 0; 1]).
+Proof. exact ape_old_header. Qed.
+Print Assumptions C05_ape_old.
+
+(* regression of the defect fixed in /repo 66533d3 (the level was compared with 4): 3.85, level 4000, 10 frames: 9 * 73728 + 1000 blocks *)
+Example C05_ape_old_extra_high_regression :
+  build_ape_old 3850 4000 0 2 44100 0 0 10 1000 =
+    [77; 65; 67; 32; 10; 15; 160; 15; 0; 0; 2; 0; 68; 172; 0; 0; 0; 0; 0; 0; 0; 0; 0; 0; 10; 0; 0; 0; 232; 3; 0; 0] ++ repeat 0 44%nat /\
+  decode_ape (build_ape_old 3850 4000 0 2 44100 0 0 10 1000) = Ok [3850; 2; 44100; 0; 664552; 44100] /\
+  decode_ape (build_ape_old 3850 3000 0 2 44100 0 0 10 1000) = Ok [3850; 2; 44100; 0; 83944; 44100] /\
+  decode_ape (build_ape_old 3850 4 0 2 44100 0 0 10 1000) = Ok [3850; 2; 44100; 0; 83944; 44100].
+Proof. exact ape_old_extra_high_regression. Qed.
+
 Theorem C05_optimfrog : forall data_size total sample_type channels rate encoder_id,
   (data_size = 12 \/ 15 <= data_size < 4294967296) -> 0 <= total < 281474976710656 -> 0 <= sample_type <= 7 ->
   1 <= channels <= 256 -> 0 <= rate < 4294967296 -> 0 <= encoder_id < 65536 ->
@@ -373,11 +396,11 @@ Print Assumptions C05_ac3_invalid_rejected.
 (* ================================================================== AAC ADIF *)
 (* ISO/IEC 13818-7 adif_header() + program_config_element() written bit by bit (Model.InfoAac.build_adif) and read by
    the mirror of AACInfo._parse_adif / ProgramConfigElement over BitReader: for ALL field values within the bit widths
-   (copyright id present or not, original/home, 23-bit bitrate, 20-bit buffer fullness, every sampling frequency index --
-   the reserved ones 13..15 report 0 --, 0..15 front/side/back elements each single or pair, 0..3 LFE, 0..7 associated
-   data, 0..15 coupling elements, the three mixdown options, 0..255 comment bytes, 1..16 programs) the reported
-   [sample_rate; channels; bitrate; 8 * raw data bytes; bitrate] are those of the first program -- for variable-rate
-   headers with any number of programs and constant-rate headers with one program. *)
+   (copyright id present or not, original/home, both bitstream types, 23-bit bitrate, 20-bit buffer fullness in front of
+   every program of a constant-rate header, every sampling frequency index -- the reserved ones 13..15 report 0 --,
+   0..15 front/side/back elements each single or pair, 0..3 LFE, 0..7 associated data, 0..15 coupling elements, the
+   three mixdown options, 0..255 comment bytes, 1..16 programs) the reported
+   [sample_rate; channels; bitrate; 8 * raw data bytes; bitrate] are those of the first program. *)
 Require Import Model.InfoAac Proofs.C05_aac_bits Proofs.C05_aac.
 
 Theorem C05_aac_tables_match_spec : aac_table_diffs = [].
@@ -385,18 +408,20 @@ Proof. exact aac_tables_match_spec. Qed.
 Print Assumptions C05_aac_tables_match_spec.
 
 Theorem C05_adif : forall p tail, valid_adif p -> Forall (fun x => 0 <= x < 256) tail ->
-  ad_bitstream_type p = 1 \/ zlen (ad_pces p) = 1 ->
   decode_adif (build_adif p tail) = Ok (expected_adif_info p (zlen tail)).
 Proof. exact adif_decode_build. Qed.
 Print Assumptions C05_adif.
 
-(* the precondition is needed: constant rate with two programs (buffer fullness precedes every program, the code skips it once) *)
-Theorem C05_adif_cbr_multi_pce_refuted :
-  valid_adif adif_cbr2_witness /\ Forall (fun x => 0 <= x < 256) (zeros 100) /\
-  decode_adif (build_adif adif_cbr2_witness (zeros 100)) = Ok [44100; 2; 128000; 624; 128000] /\
+(* regression of the defect fixed in /repo 2eb4867 (buffer fullness was skipped only before the first program): constant rate,
+   two programs; formerly length 624/128000 with 100 bytes of raw data and AACError with 2 *)
+Example C05_adif_cbr_multi_pce_regression :
+  valid_adif adif_cbr2_witness /\
+  build_adif adif_cbr2_witness [] =
+    [65; 68; 73; 70; 0; 62; 128; 3; 255; 255; 224; 160; 128; 0; 4; 0; 0; 255; 255; 241; 76; 128; 80; 0; 17; 144; 0; 5; 104; 101; 108; 108; 111] /\
+  decode_adif (build_adif adif_cbr2_witness (zeros 100)) = Ok [44100; 2; 128000; 800; 128000] /\
+  decode_adif (build_adif adif_cbr2_witness [0; 0]) = Ok [44100; 2; 128000; 16; 128000] /\
   expected_adif_info adif_cbr2_witness 100 = [44100; 2; 128000; 800; 128000].
-Proof. exact adif_cbr_multi_pce_refuted. Qed.
-Print Assumptions C05_adif_cbr_multi_pce_refuted.
+Proof. exact adif_cbr_multi_pce_regression. Qed.
 
 Example C05_adif_vbr_example :
   build_adif (mkAdif None 0 0 1 128000 0 [mkPce 0 1 4 [16] [] [] [] [] [] None None None []]) [1; 2; 3] =
